@@ -22,6 +22,8 @@ from hpstatic.poly import Canon
 from hpstatic.terms import (sym, intern, show, subterms, calls_in, NONE, num, kw,
                             atoms_of)
 from . import c01
+from hpstatic.loader import AnalysisError
+from .common import init_of, init_params
 
 MUTATION_TARGETS = {'holopy/scattering/imageformation.py': ['_calculate_scattered_field_from_superposition', '_calculate_multiple_color_scattered_field', '_calculate_single_color_scattered_field', 'select_scatterer_by_illumination'], 'holopy/scattering/scatterer/composite.py': ['get_component_list'], 'holopy/core/metadata.py': ['to_vector', 'dict_to_array'], 'holopy/scattering/interface.py': ['prep_schema']}
 
@@ -57,6 +59,7 @@ def run(check, prog):
     channels(check, prog)
     tables(check, prog)
     illumination_preparation(check, prog)
+    default_theory_per_channel(check, prog)
     # per-channel scatterer properties given as labelled arrays pass through the
     # parameter map on every calculation: each value must stay with its label
     from . import c11
@@ -541,3 +544,91 @@ def illumination_preparation(check, prog):
                   'repeated per channel), or one polarisation is broadcast over the '
                   'wavelengths; a detector that already has channels contributes its '
                   'first one (%d rows)' % rows, loc, fail_detail='; '.join(bad[:3]))
+
+
+
+def default_theory_per_channel(check, prog):
+    """S5: a channel's result is the single-channel result also when the theory is
+    left to the library.  The channel loop hands each channel the scatterer
+    selected for that channel; the default theory, however, is decided before
+    the loop.  That commutes with channel selection only if the decision looks
+    at nothing that selection can change: selection rebuilds the scatterer from
+    its `parameters`, so the class (and the number of members) stays, every
+    constructor argument may change."""
+    mod = prog.module('holopy.scattering.interface')
+    rel = mod.relpath
+    funcs = dict((n.name, n) for n in mod.tree.body if isinstance(n, ast.FunctionDef))
+    root = 'determine_default_theory_for'
+    if root not in funcs or 'interpret_theory' not in funcs:
+        raise AnalysisError('interface.py: default-theory functions not found')
+    # closure of the decision inside this module
+    seen, todo = [], [root]
+    while todo:
+        f = todo.pop()
+        if f in seen:
+            continue
+        seen.append(f)
+        for n in ast.walk(funcs[f]):
+            if isinstance(n, ast.Call) and isinstance(n.func, ast.Name) and \
+                    n.func.id in funcs:
+                todo.append(n.func.id)
+    # constructor arguments of the sphere classes: what selection may change
+    selectable = set()
+    for cq in ('holopy.scattering.scatterer.sphere.Sphere',
+               'holopy.scattering.scatterer.sphere.LayeredSphere'):
+        selectable |= set(init_params(init_of(prog, cq)[1]))
+    check.floor('channel-selectable sphere arguments', len(selectable), 3)
+    # is the decision taken per channel instead?  (a call of the decision whose
+    # argument comes from select_scatterer_by_illumination, anywhere)
+    per_channel = False
+    for m in prog.modules.values():
+        if '/tests/' in m.relpath:
+            continue
+        for fn in ast.walk(m.tree):
+            if not isinstance(fn, (ast.FunctionDef, ast.AsyncFunctionDef)):
+                continue
+            selected = set()
+            for n in ast.walk(fn):
+                if isinstance(n, ast.Assign) and isinstance(n.value, ast.Call) and \
+                        ast.unparse(n.value.func).endswith(
+                            'select_scatterer_by_illumination'):
+                    selected |= set(t.id for t in n.targets if isinstance(t, ast.Name))
+            for n in ast.walk(fn):
+                if isinstance(n, ast.Call) and ast.unparse(n.func).split('.')[-1] in (
+                        'interpret_theory', root) and n.args and \
+                        isinstance(n.args[0], ast.Name) and n.args[0].id in selected:
+                    per_channel = True
+    sites = 0
+    for f in seen:
+        reads = set()
+        for n in ast.walk(funcs[f]):
+            if isinstance(n, ast.Attribute) and isinstance(n.ctx, ast.Load) and \
+                    n.attr in selectable:
+                reads.add(n.attr)
+            if isinstance(n, ast.Call) and isinstance(n.func, ast.Name) and \
+                    n.func.id == 'getattr' and len(n.args) >= 2:
+                names = []
+                a = n.args[1]
+                if isinstance(a, ast.Constant):
+                    names = [a.value]
+                elif isinstance(a, ast.Name):
+                    # the name ranges over a literal list in an enclosing loop
+                    for g in ast.walk(funcs[f]):
+                        if isinstance(g, (ast.comprehension, ast.For)) and \
+                                isinstance(g.target, ast.Name) and \
+                                g.target.id == a.id and \
+                                isinstance(g.iter, (ast.List, ast.Tuple)):
+                            names += [e.value for e in g.iter.elts
+                                      if isinstance(e, ast.Constant)]
+                reads |= set(x for x in names if x in selectable)
+        sites += 1
+        check.require(per_channel or not reads, 'S5-default-theory-per-channel', f,
+                      'the default theory is decided from what channel selection '
+                      'cannot change (the class of the scatterer), or on the '
+                      'scatterer selected for the channel',
+                      '%s:%d' % (rel, funcs[f].lineno),
+                      fail_detail='decided once, before the channel loop, from the '
+                      'members\' %s -- which may be per-channel dictionaries or '
+                      'labelled arrays: the multi-channel calculation then uses '
+                      'another theory than each single-channel one' % sorted(reads))
+    check.floor('functions of the default-theory decision', sites, 2)
